@@ -36,6 +36,7 @@ import (
 	"os"
 	"os/exec"
 	"path/filepath"
+	"sort"
 	"strconv"
 	"strings"
 
@@ -790,6 +791,9 @@ func runM1L(w *bufio.Writer, c Case, cs string, stats map[string]int) {
 		return
 	}
 	defer sys.close()
+	// the legacy key space exactly as the legacy library left it (nothing of it has been touched
+	// by the new library yet): compared with the model of that library's writer (LegacyStore.v)
+	fmt.Fprintf(w, "x lraw => %s\n", sys.rawLegacy())
 	emit := func(shown, op []string) {
 		res := sys.Exec(op)
 		stats["op:"+shown[0]]++
@@ -1001,4 +1005,31 @@ func (s *Sys) auditLegacy() (string, string) {
 		return "la(" + strings.ReplaceAll(info, " ", ",") + ")", info
 	}
 	return "ok", info
+}
+
+// rawLegacy lists the legacy key space: node hashes (n<hash>), orphan records
+// (o<to><from><hash>) and root records (r<version> -> hash), each sorted:
+// lraw(n=<hash>,..;o=<to>.<from>.<hash>,..;r=<version>.<hash>,..)
+func (s *Sys) rawLegacy() string {
+	it, err := s.db.Iterator(nil, nil)
+	if err != nil {
+		return "err"
+	}
+	defer it.Close()
+	var ns, os, rs []string
+	for ; it.Valid(); it.Next() {
+		k := it.Key()
+		switch {
+		case len(k) == 33 && k[0] == 'n':
+			ns = append(ns, hex.EncodeToString(k[1:]))
+		case len(k) == 49 && k[0] == 'o':
+			os = append(os, fmt.Sprintf("%d.%d.%s", int64(binary.BigEndian.Uint64(k[1:9])), int64(binary.BigEndian.Uint64(k[9:17])), hex.EncodeToString(k[17:])))
+		case len(k) == 9 && k[0] == 'r':
+			rs = append(rs, fmt.Sprintf("%d.%s", int64(binary.BigEndian.Uint64(k[1:9])), hex.EncodeToString(it.Value())))
+		}
+	}
+	sort.Strings(ns)
+	sort.Strings(os)
+	sort.Strings(rs)
+	return "lraw(n=" + strings.Join(ns, ",") + ";o=" + strings.Join(os, ",") + ";r=" + strings.Join(rs, ",") + ")"
 }
